@@ -91,6 +91,55 @@ class BusProtocol (txdbus.protocol.BasicDBusProtocol):
         self.bus.messageReceived(self, msg)
 
 
+def _parseMatchRule(rule):
+    """
+    Splits a match rule into its (key, value) pairs following the quoting
+    rules of the DBus specification: pairs are separated by commas; inside
+    apostrophes every character is literal; outside of them a backslash
+    followed by an apostrophe stands for an apostrophe.
+
+    @raise ValueError: an item has no '=' or a quote is not terminated
+    """
+    items = []
+    i = 0
+    n = len(rule)
+
+    while i < n:
+        j = rule.find('=', i)
+        if j < 0:
+            raise ValueError('Invalid match rule item: ' + rule[i:])
+        key = rule[i:j]
+        i = j + 1
+
+        value = []
+        quoted = False
+        while i < n:
+            c = rule[i]
+            if quoted:
+                if c == "'":
+                    quoted = False
+                else:
+                    value.append(c)
+            elif c == "'":
+                quoted = True
+            elif c == ',':
+                break
+            elif c == '\\' and rule[i + 1:i + 2] == "'":
+                value.append("'")
+                i += 1
+            else:
+                value.append(c)
+            i += 1
+
+        if quoted:
+            raise ValueError('Unterminated quote in match rule: ' + rule)
+
+        items.append((key, ''.join(value)))
+        i += 1  # the comma
+
+    return items
+
+
 class Bus (objects.DBusObject):
     """
     DBus Bus implementation.
@@ -488,10 +537,7 @@ class Bus (objects.DBusObject):
             'arg0namespace': None,
         }
 
-        for item in rule.split(','):
-            k, v = item.split('=')
-
-            value = v[1:-1]
+        for k, value in _parseMatchRule(rule):
 
             if k == 'type':
                 k = 'mtype'
